@@ -273,6 +273,21 @@ def one_operator_matrix():
             for t in range(0, n + 1):
                 out.append(("count_true%s==%d" % (combo, t), [("cmp", "eq", ("count_true", items, "flat"), ("ilit", t))]))
             out.append(("var==count_true%s" % (combo,), [("cmp", "eq", iv(0), ("count_true", items, "nested" if n == 3 else "flat"))]))
+    # two-level forms: a comparison whose operands are themselves sums / counts / conditionals or constant-valued counts, in
+    # both orders (a back end that rewrites such nests -- cardinality constraints, flattened chains -- must keep the meaning)
+    counts = [("count_true", [bv(0), bv(1)], "flat"), ("count_true", [bv(0), ("blit", True), bv(2)], "flat"), ("count_true", [], "flat"),
+              ("count_true", [("blit", False), ("blit", False)], "flat"), ("count_true", [("not", bv(1))], "flat"),
+              ("add", ("count_true", [bv(0), bv(1)], "flat"), ("ilit", 1)), ("cond_m", bv(0), ("ilit", 1), ("ilit", 0)),
+              ("add", ("cond_m", bv(0), ("ilit", 1), ("ilit", 0)), ("cond_m", bv(1), ("ilit", 1), ("ilit", 0))),
+              ("sub", ("neg", iv(0)), iv(1)), ("neg", ("sub", iv(0), iv(1)))]
+    others = [iv(0)] + [("ilit", k) for k in (-1, 0, 1, 2, 3)]
+    for name in CMPS:
+        for ia, a in enumerate(counts):
+            for ib, b in enumerate(counts + others):
+                if ib < len(counts) and ib < ia:
+                    continue
+                out.append(("%s(nest%d,nest%d)" % (name, ia, ib), [("cmp", name, a, b), bv(0)]))
+                out.append(("%s(nest%d,nest%d) swapped" % (name, ib, ia), [("cmp", name, b, a), ("not", bv(1))]))
     items_i = [iv(0), iv(1), ("ilit", 1), ("ilit", 2), iv(2)]
     for n in range(0, 4):
         for combo in itertools.product(range(len(items_i)), repeat=n):
